@@ -3,7 +3,7 @@
     lemma proved elsewhere, with [Print Assumptions] beneath.  bin/pqv
     re-checks every statement with [Check (name : forall ..., statement)] and
     every [Print Assumptions] on each run. *)
-From PQV Require Import AbsPQProofs AbsCostProofs ListProofs IterProofs UnwindProofs HashIndep GhostIndep Final.
+From PQV Require Import AbsPQProofs AbsCostProofs ListProofs IterProofs UnwindProofs HashIndep GhostIndep Final EqRel.
 From PQV Require Export PropSpec.
 
 (* C01 *)
@@ -335,3 +335,18 @@ Print Assumptions C14_clone_is_copy.
 Theorem C14_clone_behaves_identically : forall (I P : Type) (keq : I -> I -> bool) (hash : I -> N) (ple : P -> P -> bool) (peq : P -> P -> bool) (alloc_limit : N), ghost_indep_run_stmt keq hash ple peq alloc_limit.
 Proof. intros; apply @GhostIndep.ghost_indep_run. Qed.
 Print Assumptions C14_clone_behaves_identically.
+
+(* C14 *)
+Theorem C14_eq_rel : forall (I P : Type) (keq : I -> I -> bool) (hash : I -> N) (ple : P -> P -> bool) (peq : P -> P -> bool), C14_eq_rel_stmt keq hash ple peq.
+Proof. intros; apply @EqRel.C14_eq_rel_thm. Qed.
+Print Assumptions C14_eq_rel.
+
+(* C14 *)
+Theorem C14_eq_equivalence : forall (I P : Type) (keq : I -> I -> bool) (hash : I -> N) (ple : P -> P -> bool) (peq : P -> P -> bool), C14_eq_equivalence_stmt keq hash ple peq.
+Proof. intros; apply @EqRel.C14_eq_equivalence_thm. Qed.
+Print Assumptions C14_eq_equivalence.
+
+(* C15 *)
+Theorem C15_roundtrip_rel : forall (I P : Type) (keq : I -> I -> bool) (hash : I -> N) (ple : P -> P -> bool) (peq : P -> P -> bool), C15_roundtrip_rel_stmt keq hash ple peq.
+Proof. intros; apply @EqRel.C15_roundtrip_rel_thm. Qed.
+Print Assumptions C15_roundtrip_rel.
